@@ -11,7 +11,7 @@ use crate::chain::{act_from_json, act_json, ChainCfg, ChainSt, HopAct, Loc};
 use crate::driver::ReqCfg;
 use crate::engine::{explore, replay_trace, validate_traces, Limits, Report, Sys, Tier, Violation};
 
-pub const RULE_C13: &str = "original requests {GET, POST with Content-Length: 3, POST chunked, PUT, DELETE, HEAD, GET with two cookie and two authorization fields, POST with Expect: 100-continue answered by the redirect itself} on {http://a.test/p, https://a.test/p, http://a.test:8080/p}, each carrying authorization: S3CRET, cookie: k=ORIG, x-keep: 1 (the main family also referer, origin, proxy-authorization); redirect-chain graph to depth 4 (thorough: depth 5 and 24 Locations) (state = hop + full fingerprint of the real Prepare flow + reference URI): at every hop every status {301,302,303,307,308} x every Location of a 27-entry pool (incl. three spellings of a redirect to the request's own URI, backslash and embedded-tab forms that the url crate resolves to another host; absolute http/https for hosts a.test/b.test/A.TEST with ports none/80/443/8080, hosts a.test.evil.example and a.tes that share a prefix with the original host, ws:// and ftp:// on the original host, scheme-relative, path-absolute, relative, ../, query-only) x policy {Never, SameHost} chosen independently per hop - all chains of length 1..4 incl. leave-and-return and scheme up/downgrades; in every state the head of the redirected request is written under two buffer schedules and read back. distinct = distinct chain states (flow fingerprint x reference URI x hop)";
+pub const RULE_C13: &str = "original requests {GET, POST with Content-Length: 3, POST chunked, PUT, DELETE, HEAD, GET with two cookie and two authorization fields, POST with Expect: 100-continue answered by the redirect itself} on {http://a.test/p, https://a.test/p, http://a.test:8080/p}, each carrying authorization: S3CRET, cookie: k=ORIG, x-keep: 1 (the main family also referer, origin, proxy-authorization); redirect-chain graph to depth 4 (thorough: depth 5 and 24 Locations) (state = hop + full fingerprint of the real Prepare flow + reference URI): at every hop every status {301,302,303,307,308} x every Location of a 27-entry pool (incl. three spellings of a redirect to the request's own URI, backslash and embedded-tab forms that the url crate resolves to another host; absolute http/https for hosts a.test/b.test/A.TEST with ports none/80/443/8080, hosts a.test.evil.example and a.tes that share a prefix with the original host, ws:// and ftp:// on the original host, scheme-relative, path-absolute, relative, ../, query-only) x policy {Never, SameHost} chosen independently per hop - all chains of length 1..4 incl. leave-and-return and scheme up/downgrades; in every state the head of the redirected request is written under two buffer schedules and read back. plus 3-hop chains (4 methods x 5 statuses x both policies x same-host / cross-host targets) in which the caller attaches its own Cookie and Authorization to every request before sending it: the next request must not carry them. distinct = distinct chain states (flow fingerprint x reference URI x hop)";
 pub const RULE_C14: &str = "GET requests on bases {http://a.test/p, http://a.test/d/e/f?x=1, https://a.test:8443/, http://a.test, http://a.test?x=1}, plus GET / POST (Content-Length, chunked) requests on https and http bases carrying authorization, proxy-authorization, cookie, referer, origin, user-agent, accept-encoding (depth 2, statuses 301/302/307); redirect-chain graph to depth 3 (thorough 4): at every hop statuses {302,307} x a ~50-entry Location pool (absolute http/https with/without/default ports, scheme-relative, path-absolute, ./ ../ ../../.. relative, trailing slash, query-only, empty, commas in path and query, userinfo, each also with #fragment, 2-3 Location fields where the last wins) plus malformed values (missing, non-UTF-8, empty host, //, port 99999, unterminated IPv6 literal) x both policies; new flow's URI compared on components with an RFC 3986 section 5.2 reference that tracks its own current URI, and the request line / Host header of every state's head checked; plus 3 statuses x 3 Locations x 3 continuations of the head x every cut inside the Location value: a partly arrived Location must not be followed. distinct = distinct chain states";
 
 fn c13_cfgs(tier: Tier) -> Vec<Arc<ChainCfg>> {
@@ -210,6 +210,66 @@ fn truncated_location(rep: &mut Report) {
     rep.extra("truncated_location_cells", json!(cells));
 }
 
+
+/// C13: what the caller attaches to a flow for ITS target (a cookie jar's Cookie, per-host credentials,
+/// a Content-Length for a body sent despite the method) belongs to that request only: when that flow
+/// is redirected in turn, the next request must not carry them - at every hop, for every status.
+fn caller_additions_chain(rep: &mut Report) {
+    use crate::chain::{follow, write_head, Followed};
+    let mut cells = 0u64;
+    for m in ["GET", "HEAD", "OPTIONS", "POST"] {
+        for status in [301u16, 302, 303, 307, 308] {
+            for same_host in [false, true] {
+                for targets in [["/n1", "/n2", "/n3"], ["http://b.test/n1", "http://a.test/n2", "https://a.test/n3"]] {
+                    cells += 1;
+                    let label = format!("{} chain, status {}, policy {}, targets {:?}", m, status, if same_host { "SameHost" } else { "Never" }, targets);
+                    let r = crate::engine::guarded(|| -> Result<Option<String>, String> {
+                        let mut rq = ReqCfg::new(m, "1.1", "http://a.test/p").orig("x-keep", "1");
+                        if m == "POST" {
+                            rq = rq.orig("content-length", "3");
+                        }
+                        let mut cur = rq.build_prepare()?;
+                        for (hop, t) in targets.iter().enumerate() {
+                            // what a caller does before sending: cookie jar and credential store for this target
+                            cur.header("cookie", format!("jar=HOP{}", hop).as_str()).map_err(|e| format!("header: {:?}", e))?;
+                            cur.header("authorization", format!("HOP{}-CRED", hop).as_str()).map_err(|e| format!("header: {:?}", e))?;
+                            let body: &[u8] = if hop == 0 && m == "POST" { b"abc" } else { b"" };
+                            let nf = match follow(&cur, body, status, &Loc::one(t), same_host)? {
+                                Followed::New(f) => f,
+                                _ => return Ok(None), // not followed (307 / 308 of a POST): the chain ends
+                            };
+                            let w = write_head(&nf, false);
+                            if w.err.is_none() {
+                                let h = crate::refmodel::head::parse(&w.bytes)?;
+                                for (name, val) in &h.fields {
+                                    let v = String::from_utf8_lossy(val);
+                                    if (name == "cookie" || name == "authorization") && v.contains(&format!("HOP{}", hop)) {
+                                        return Ok(Some(format!("hop {}: the request to {} carries `{}: {}`, which the caller had attached to the PREVIOUS request only", hop + 1, nf.uri(), name, v)));
+                                    }
+                                }
+                            }
+                            cur = nf;
+                        }
+                        Ok(None)
+                    });
+                    let fail = match r {
+                        Ok(Ok(None)) => None,
+                        Ok(Ok(Some(w))) => Some(("C13:caller-addition-inherited".to_string(), w)),
+                        Ok(Err(e)) => Some(("C13:harness:caller-additions".to_string(), e)),
+                        Err(p) => Some((format!("C13:panic:{}", crate::engine::panic_site(&p)), p)),
+                    };
+                    if let Some((key, what)) = fail {
+                        rep.violation(Violation { key, ord: 7_000_000 + cells, what: format!("{} [{}]", what, label), replay: json!({"kind": "caller-additions"}) });
+                    }
+                }
+            }
+        }
+    }
+    rep.evaluations += cells;
+    rep.transitions += cells * 3;
+    rep.extra("caller_addition_chains", json!(cells));
+}
+
 fn run_chains(cfgs: Vec<Arc<ChainCfg>>, max_states: u64) -> Report {
     let parts: Vec<Report> = cfgs
         .par_iter()
@@ -282,6 +342,7 @@ fn run_chains(cfgs: Vec<Arc<ChainCfg>>, max_states: u64) -> Report {
 pub fn run_c13(tier: Tier) -> Report {
     let mut rep = run_chains(c13_cfgs(tier), 2_000_000);
     rep.guard("some redirected request may keep Authorization", false);
+    caller_additions_chain(&mut rep);
     rep
 }
 
@@ -306,6 +367,11 @@ fn replay_chain(cfgs: Vec<Arc<ChainCfg>>, v: &Value) -> Result<Option<String>, S
 }
 
 pub fn replay_c13(v: &Value) -> Result<Option<String>, String> {
+    if v["kind"].as_str() == Some("caller-additions") {
+        let mut r = Report::new();
+        caller_additions_chain(&mut r);
+        return Ok(r.violations.into_iter().next().map(|(k, (_, v))| format!("[{}] {}", k, v.what)));
+    }
     let tier = if v["tier"].as_str() == Some("thorough") { Tier::Thorough } else { Tier::Quick };
     replay_chain(c13_cfgs(tier), v)
 }
